@@ -1,7 +1,8 @@
 (* C07 -- geodesy: lemmas about the definitions GENERATED from typhon/geodesy.py (coq/gen/geodesy.v) and about the
    hand-written part of the model (Model/C07_geodesy.v).  Real analysis; standard-library real axioms only.
-   Sections: atan2 by cases / spherical <-> cartesian / distances (via Proofs/C06_metric) / ellipsoid radii /
-   geodetic <-> cartesian (fixed point of the iteration map) / position + line of sight / chord triangle. *)
+   Sections: atan2 by cases / canonical forms of the generated closed forms + spherical <-> cartesian / distances (via
+   Proofs/C06_metric) / ellipsoid radii / geodetic <-> cartesian (fixed point of the iteration map) / position + line
+   of sight / chord triangle / ellipsoid table / spherical triangle inequality. *)
 From Coq Require Import Reals Lra Nsatz.
 From Typhon Require Import Base.RealAux Model.C07_geodesy.
 From TyphonGen Require Import geodesy.
@@ -103,11 +104,24 @@ Proof.
   rewrite E2. replace (c1 * c1 * 1 + s1 * s1) with (s1 * s1 + c1 * c1) by ring. rewrite E1. ring.
 Qed.
 
+(* canonical forms of the generated closed forms: proved with ring, so that re-associated / commuted / renamed
+   arithmetic in the source leaves every later proof untouched *)
+Lemma geocentric2cart_spec r lat lon :
+  geocentric2cart r lat lon =
+  (r * cos (lat * PI / 180) * cos (lon * PI / 180), r * cos (lat * PI / 180) * sin (lon * PI / 180), r * sin (lat * PI / 180)).
+Proof. unfold geocentric2cart. cbv zeta. repeat (apply (f_equal2 (@pair _ _))); ring. Qed.
+
+Lemma geodetic2cart_spec h lat lon a e :
+  geodetic2cart h lat lon a e =
+  let N := a / sqrt (1 - e ^ 2 * sind lat ^ 2) in
+  ((N + h) * cosd lat * cosd lon, (N + h) * cosd lat * sind lon, (N * (1 - e ^ 2) + h) * sind lat).
+Proof. unfold geodetic2cart. cbv zeta. repeat (apply (f_equal2 (@pair _ _))); ring. Qed.
+
 Lemma sph_cart_sph r lat lon : 0 < r -> -90 < lat < 90 -> -180 < lon <= 180 ->
   (let '(x, y, z) := geocentric2cart r lat lon in cart2geocentric x y z) = (r, lat, lon).
 Proof.
   intros Hr Hlat Hlon. pose proof PI_RGT_0 as Hpi.
-  unfold geocentric2cart, cart2geocentric. cbv zeta.
+  rewrite geocentric2cart_spec. unfold cart2geocentric. cbv zeta.
   set (phi := lat * PI / 180). set (lam := lon * PI / 180).
   assert (Hphi : - (PI / 2) < phi < PI / 2).
   { destruct (deg_rad_range lat (-90) 90 Hlat) as [A B]. unfold phi. lra. }
@@ -137,7 +151,7 @@ Lemma cart_sph_cart x y z : x ^ 2 + y ^ 2 + z ^ 2 <> 0 ->
   (let '(r, lat, lon) := cart2geocentric x y z in geocentric2cart r lat lon) = (x, y, z).
 Proof.
   intros Hn. pose proof PI_RGT_0 as Hpi.
-  unfold cart2geocentric, geocentric2cart. cbv zeta.
+  unfold cart2geocentric. cbv zeta. rewrite geocentric2cart_spec.
   set (r := sqrt (x ^ 2 + y ^ 2 + z ^ 2)).
   assert (Hr : 0 < r) by (apply sqrt_lt_R0; nra).
   assert (Hrr : r * r = x ^ 2 + y ^ 2 + z ^ 2) by (apply sqrt_sqrt; nra).
@@ -264,7 +278,7 @@ Proof. unfold sind. pose proof (SIN_bound (x * PI / 180)). lra. Qed.
 Lemma on_ellipsoid_radius a e lat lon : 0 < a -> 0 <= e < 1 ->
   (let '(x, y, z) := geodetic2cart 0 lat lon a e in sqrt (x ^ 2 + y ^ 2 + z ^ 2)) = ellipsoid_r_geodetic a e lat.
 Proof.
-  intros Ha He. unfold geodetic2cart, ellipsoid_r_geodetic. cbv zeta.
+  intros Ha He. rewrite geodetic2cart_spec. unfold ellipsoid_r_geodetic. cbv zeta.
   pose proof (sincos_d lat) as E1. pose proof (sincos_d lon) as E2. pose proof (sind_range lat) as Hs.
   pose proof (W_pos e (sind lat) He Hs) as HW.
   set (s := sind lat) in *. set (c := cosd lat) in *. set (sl := sind lon) in *. set (cl := cosd lon) in *.
@@ -273,7 +287,7 @@ Proof.
   assert (HWW : W * W = 1 - e ^ 2 * s ^ 2) by (apply sqrt_sqrt; lra).
   set (Q := (1 - e ^ 2) ^ 2 * s ^ 2 + c ^ 2).
   assert (HQ : 0 <= Q) by (unfold Q; nra).
-  assert (Hsum : ((a / W + 0) * c * cl) ^ 2 + ((a / W + 0) * c * sl) ^ 2 + ((a / W * (1 - e ^ 2) + 0) * s * 1) ^ 2
+  assert (Hsum : ((a / W + 0) * c * cl) ^ 2 + ((a / W + 0) * c * sl) ^ 2 + ((a / W * (1 - e ^ 2) + 0) * s) ^ 2
                  = (a / W) * (a / W) * Q).
   { unfold Q. replace (((a / W + 0) * c * cl) ^ 2 + ((a / W + 0) * c * sl) ^ 2)
       with ((a / W) * (a / W) * (c * c) * (sl ^ 2 + cl ^ 2)) by ring. rewrite E2. ring. }
@@ -292,7 +306,7 @@ Lemma surface_on_ellipsoid a e lat lon : 0 < a -> 0 <= e < 1 ->
   let '(x, y, z) := geodetic2cart 0 lat lon a e in
   (x ^ 2 + y ^ 2) * (1 - e ^ 2) + z ^ 2 = a ^ 2 * (1 - e ^ 2).
 Proof.
-  intros Ha He. unfold geodetic2cart. cbv zeta.
+  intros Ha He. rewrite geodetic2cart_spec. cbv beta iota zeta.
   pose proof (sincos_d lat) as E1. pose proof (sincos_d lon) as E2. pose proof (sind_range lat) as Hs.
   pose proof (W_pos e (sind lat) He Hs) as HW.
   set (s := sind lat) in *. set (c := cosd lat) in *. set (sl := sind lon) in *. set (cl := cosd lon) in *.
@@ -303,7 +317,7 @@ Proof.
     with ((a / W) * (a / W) * (c * c) * (sl ^ 2 + cl ^ 2)) by ring. rewrite E2.
   replace (a / W * (a / W)) with (a * a / (W * W)) by (field; lra). rewrite HWW.
   replace (c * c) with (1 - s ^ 2) by lra.
-  replace (((a / W * (1 - e ^ 2) + 0) * s * 1) ^ 2) with (a * a / (W * W) * (1 - e ^ 2) ^ 2 * s ^ 2) by (field; lra).
+  replace (((a / W * (1 - e ^ 2) + 0) * s) ^ 2) with (a * a / (W * W) * (1 - e ^ 2) ^ 2 * s ^ 2) by (field; lra).
   rewrite HWW. field. lra.
 Qed.
 
@@ -351,7 +365,7 @@ Proof.
   set (latc := asin (z / r) * 180 / PI) in *. set (lonc := atan2 y x * 180 / PI) in *.
   split; [|exact (eq_sym HR)].
   assert (Hr : 0 < r) by (apply sqrt_lt_R0; nra).
-  unfold geocentric2cart in HC. cbv zeta in HC. injection HC as Ex Ey Ez.
+  rewrite geocentric2cart_spec in HC. injection HC as Ex Ey Ez.
   destruct (geocentric_radius_on_ellipse a e latc Ha He) as [Hr' Hell].
   set (r' := ellipsoid_r_geocentric a e latc) in *.
   unfold cosd, sind in Hell.
@@ -387,7 +401,7 @@ Lemma geodetic_fixed_point a e h lat lon :
   0 < p /\ geod_T a (e ^ 2) p z B = B /\ geod_h a (e ^ 2) p B = h /\ atan2 y x * 180 / PI = lon.
 Proof.
   intros Ha He Hlat Hlon Hh. pose proof PI_RGT_0 as Hpi.
-  unfold geodetic2cart, sind, cosd. cbv zeta.
+  rewrite geodetic2cart_spec. unfold sind, cosd. cbv beta iota zeta.
   set (B := lat * PI / 180). set (lam := lon * PI / 180).
   assert (HB : - (PI / 2) < B < PI / 2).
   { destruct (deg_rad_range lat (-90) 90 Hlat) as [A1 A2]. unfold B. lra. }
@@ -413,7 +427,7 @@ Proof.
   { unfold geod_h, geod_N. fold N. unfold rho. field. lra. }
   split; [exact Hrho|]. split; [|split].
   - unfold geod_T. cbv zeta. rewrite Hgh. unfold geod_N. fold N.
-    replace ((N * (1 - e ^ 2) + h) * sin B * 1 / rho * / (1 - e ^ 2 * N / (N + h))) with (tan B).
+    replace ((N * (1 - e ^ 2) + h) * sin B / rho * / (1 - e ^ 2 * N / (N + h))) with (tan B).
     + apply atan_tan. exact HB.
     + unfold tan, rho. field. repeat split; lra.
   - exact Hgh.
@@ -431,7 +445,7 @@ Lemma fixed_point_maps_back a e x y z B :
 Proof.
   intros Ha He Hp HB p h HNk HT. pose proof PI_RGT_0 as Hpi.
   assert (Hc : 0 < cos B) by (apply cos_gt_0; lra).
-  unfold geodetic2cart, sind, cosd. cbv zeta.
+  rewrite geodetic2cart_spec. unfold sind, cosd. cbv beta iota zeta.
   replace (B * 180 / PI * PI / 180) with B by (field; lra).
   replace (atan2 y x * 180 / PI * PI / 180) with (atan2 y x) by (field; lra).
   unfold geod_T in HT. cbv zeta in HT. fold h in HT.
@@ -441,7 +455,7 @@ Proof.
   assert (HD : 1 - e ^ 2 * N / (N + h) = (N * (1 - e ^ 2) + h) / (N + h)) by (field; lra).
   assert (Htan : tan B = z / p * / (1 - e ^ 2 * N / (N + h))) by (rewrite <- HT at 1; apply tan_atan).
   rewrite HD in Htan.
-  assert (Hz : (N * (1 - e ^ 2) + h) * sin B * 1 = z).
+  assert (Hz : (N * (1 - e ^ 2) + h) * sin B = z).
   { unfold tan in Htan.
     assert (E : sin B = cos B * (z / p * / ((N * (1 - e ^ 2) + h) / (N + h)))) by (rewrite <- Htan; field; lra).
     rewrite E. replace (N + h) with (p / cos B) by (symmetry; exact HNh). field. repeat split; try lra.
@@ -471,11 +485,11 @@ Lemma geodetic_spherical_inverse a h lat lon : 0 < a + h -> -90 < lat < 90 -> -1
 Proof.
   intros Hah Hlat Hlon.
   pose proof (sph_cart_sph (a + h) lat lon Hah Hlat Hlon) as H.
-  unfold geodetic2cart, cart2geodetic_sph, sind, cosd. unfold geocentric2cart in H. cbv zeta in *.
+  rewrite geodetic2cart_spec. rewrite geocentric2cart_spec in H. unfold cart2geodetic_sph, sind, cosd. cbv zeta in *.
   replace (1 - 0 ^ 2 * sin (lat * PI / 180) ^ 2) with 1 by ring. rewrite sqrt_1.
   replace ((a / 1 + h) * cos (lat * PI / 180) * cos (lon * PI / 180)) with ((a + h) * cos (lat * PI / 180) * cos (lon * PI / 180)) by field.
   replace ((a / 1 + h) * cos (lat * PI / 180) * sin (lon * PI / 180)) with ((a + h) * cos (lat * PI / 180) * sin (lon * PI / 180)) by field.
-  replace ((a / 1 * (1 - 0 ^ 2) + h) * sin (lat * PI / 180) * 1) with ((a + h) * sin (lat * PI / 180)) by field.
+  replace ((a / 1 * (1 - 0 ^ 2) + h) * sin (lat * PI / 180)) with ((a + h) * sin (lat * PI / 180)) by field.
   rewrite H. f_equal. f_equal. ring.
 Qed.
 (* ---- position + line of sight *)
@@ -514,7 +528,7 @@ Proof.
   replace (PI / 180 * lon) with (lon * PI / 180) by field.
   replace (PI / 180 * za) with (za * PI / 180) by field.
   replace (PI / 180 * aa) with (aa * PI / 180) by field.
-  unfold geocentric2cart in Hpos. cbv zeta in Hpos.
+  rewrite geocentric2cart_spec in Hpos.
   set (phi := lat * PI / 180) in *. set (lam := lon * PI / 180) in *.
   set (zr := za * PI / 180). set (ar := aa * PI / 180).
   assert (Hphi : - (PI / 2) < phi < PI / 2).
@@ -643,3 +657,80 @@ From Coq Require Import List.
 Lemma ellipsoid_table_valid :
   Forall (fun m : String.string * (R * R) => 0 < fst (snd m) /\ 0 <= snd (snd m) < 1) ellipsoid_models.
 Proof. unfold ellipsoid_models. repeat (apply Forall_cons; [cbn [fst snd]; lra|]). apply Forall_nil. Qed.
+(* ---- triangle inequality of the arc (spherical triangle: Gram determinant of three unit vectors >= 0) *)
+Lemma gram_identity u1 u2 u3 v1 v2 v3 w1 w2 w3 :
+  let uu := u1*u1+u2*u2+u3*u3 in let vv := v1*v1+v2*v2+v3*v3 in let ww := w1*w1+w2*w2+w3*w3 in
+  let uv := u1*v1+u2*v2+u3*v3 in let vw := v1*w1+v2*w2+v3*w3 in let uw := u1*w1+u2*w2+u3*w3 in
+  uu*vv*ww + 2*uv*vw*uw - uu*vw*vw - vv*uw*uw - ww*uv*uv =
+  (u1*(v2*w3-v3*w2) - u2*(v1*w3-v3*w1) + u3*(v1*w2-v2*w1)) ^ 2.
+Proof. cbv zeta. ring. Qed.
+
+Section SphericalTriangle.
+  Variables p1 l1 p2 l2 p3 l3 : R.
+  Definition ux p l := cos p * cos l.
+  Definition uy p l := cos p * sin l.
+  Definition uz (p : R) := sin p.
+  Definition dot pa la pb lb := ux pa la * ux pb lb + uy pa la * uy pb lb + uz pa * uz pb.
+
+  Lemma unit_norm p l : dot p l p l = 1.
+  Proof.
+    unfold dot, ux, uy, uz. pose proof (sin2_cos2 p) as E1. pose proof (sin2_cos2 l) as E2. unfold Rsqr in E1, E2.
+    replace (cos p * cos l * (cos p * cos l) + cos p * sin l * (cos p * sin l) + sin p * sin p)
+      with (cos p * cos p * (sin l * sin l + cos l * cos l) + sin p * sin p) by ring.
+    rewrite E2. lra.
+  Qed.
+
+  Lemma cos_angle pa la pb lb : cos (angle pa la pb lb) = dot pa la pb lb.
+  Proof.
+    assert (H1 : 0 < 1) by lra.
+    destruct (sqrt_hav_range 1 pa la pb lb H1) as [S0 S1].
+    destruct (hav_range 1 pa la pb lb H1) as [V0 V1].
+    pose proof (sqrt_sqrt (hav pa la pb lb) V0) as SS.
+    unfold angle. rewrite cos_2a_sin, sin_asin by lra.
+    set (sh := sqrt (hav pa la pb lb)) in *.
+    replace (1 - 2 * sh * sh) with (1 - 2 * (sh * sh)) by ring. rewrite SS.
+    pose proof (chord2_hav 1 pa la pb lb) as E.
+    pose proof (unit_norm pa la) as Na. pose proof (unit_norm pb lb) as Nb.
+    unfold chord2, cx, cy, cz in E. unfold dot, ux, uy, uz in *. nra.
+  Qed.
+
+  Lemma arc_triangle : angle p1 l1 p3 l3 <= angle p1 l1 p2 l2 + angle p2 l2 p3 l3.
+  Proof.
+    assert (H1 : 0 < 1) by lra. pose proof PI_RGT_0 as Hpi.
+    destruct (angle_range 1 p1 l1 p2 l2 H1) as [a0 a1]. destruct (angle_range 1 p2 l2 p3 l3 H1) as [b0 b1].
+    destruct (angle_range 1 p1 l1 p3 l3 H1) as [c0 c1].
+    pose proof (cos_angle p1 l1 p2 l2) as EA. pose proof (cos_angle p2 l2 p3 l3) as EB. pose proof (cos_angle p1 l1 p3 l3) as EC.
+    set (a := angle p1 l1 p2 l2) in *. set (b := angle p2 l2 p3 l3) in *. set (c := angle p1 l1 p3 l3) in *.
+    destruct (Rle_or_lt PI (a + b)) as [Big|Small]; [lra|].
+    destruct (Rle_or_lt c (a + b)) as [Ok|Bad]; [exact Ok|exfalso].
+    assert (Hlt : cos c < cos (a + b)) by (apply cos_decreasing_1; lra).
+    pose proof (gram_identity (ux p1 l1) (uy p1 l1) (uz p1) (ux p2 l2) (uy p2 l2) (uz p2) (ux p3 l3) (uy p3 l3) (uz p3)) as G.
+    cbv zeta in G.
+    pose proof (unit_norm p1 l1) as N1. pose proof (unit_norm p2 l2) as N2. pose proof (unit_norm p3 l3) as N3.
+    unfold dot in *. rewrite N1, N2, N3 in G. rewrite <- EA, <- EB, <- EC in G.
+    match type of G with ?L = _ => assert (G0 : 0 <= L) by (rewrite G; apply pow2_ge_0) end.
+    assert (Sa : 0 <= sin a) by (apply sin_ge_0; lra). assert (Sb : 0 <= sin b) by (apply sin_ge_0; lra).
+    pose proof (sin2_cos2 a) as Ea. pose proof (sin2_cos2 b) as Eb. unfold Rsqr in Ea, Eb.
+    rewrite cos_plus in Hlt.
+    (* (cos c - cos a cos b)^2 <= sin^2 a sin^2 b  and  cos c - cos a cos b < - sin a sin b <= 0 *)
+    assert (Q : (cos c - cos a * cos b) * (cos c - cos a * cos b) <= (sin a * sin b) * (sin a * sin b)) by nra.
+    assert (P : 0 <= sin a * sin b) by (apply Rmult_le_pos; assumption).
+    nra.
+  Qed.
+End SphericalTriangle.
+
+Lemma gcd_triangle lat1 lon1 lat2 lon2 lat3 lon3 r : 0 <= r ->
+  great_circle_distance_r lat1 lon1 lat3 lon3 r <=
+    great_circle_distance_r lat1 lon1 lat2 lon2 r + great_circle_distance_r lat2 lon2 lat3 lon3 r /\
+  great_circle_distance_deg lat1 lon1 lat3 lon3 <=
+    great_circle_distance_deg lat1 lon1 lat2 lon2 + great_circle_distance_deg lat2 lon2 lat3 lon3.
+Proof.
+  intros Hr. pose proof PI_RGT_0 as Hpi. rewrite !gcd_r_is_angle, !gcd_deg_is_angle.
+  pose proof (arc_triangle (rad lat1) (rad lon1) (rad lat2) (rad lon2) (rad lat3) (rad lon3)) as T.
+  set (c := angle (rad lat1) (rad lon1) (rad lat3) (rad lon3)) in *.
+  set (a := angle (rad lat1) (rad lon1) (rad lat2) (rad lon2)) in *.
+  set (b := angle (rad lat2) (rad lon2) (rad lat3) (rad lon3)) in *.
+  split.
+  - rewrite <- Rmult_plus_distr_l. apply Rmult_le_compat_l; assumption.
+  - apply Rmult_le_reg_r with (PI / 180); [lra|]. field_simplify; lra.
+Qed.
